@@ -459,6 +459,9 @@ func factsC15(r *Repo) []Fact {
 		out = append(out, boolFact("streamCheckerKeepsChunkType", keeps, "compose/"+vfile+": the stream form of the combined checker yields map[string]any chunks"))
 	}
 
+	// ---------------- untyped nil values: checker guard, kind lists (c15_nil.go) ----------------
+	out = append(out, c15NilFacts(cp)...)
+
 	// ---------------- the handler managers (graph_manager.go) ----------------
 	out = append(out, c15ChainFacts(cp, "preNodeHandlerManager", "preNode")...)
 	out = append(out, c15ChainFacts(cp, "preBranchHandlerManager", "preBranch")...)
